@@ -21,6 +21,20 @@ CHECKS = {
    text="TLC proves on the bounded model that the committed revision never reaches an unfinished write and always catches up (liveness under WF), for every outcome incl. future expectations; schedules in which later-allocated writes finish first are replayed on the real backend with the sequencer as a gated process; monitors NoOvertake/CommittedWasReported/Resolved judge every recorded trace.",
    ref="6/C04"),
 }
+CHECKS.update({
+ "C03": dict(technique="TLA+ transcription of the scanner (Scanner.tla) model-checked against the MVCC reference (KBSeq.tla/KBDefs.tla); TLC-generated histories run on 4 engines; reads judged by TLC trace validation against the history rebuilt from logged engine commits",
+   text="TLC checks, for every history of the bounded sequential model and every revision/range/limit, that the transcribed scan and point-read algorithms return exactly the MVCC snapshot. TLC-generated histories (incl. failed writes and compactions, prefix-related key names) are run on memkv, Badger, TiKV mock and the metrics wrapper; after every request sampled, and at the end swept, point/range/limited/count/streamed reads at every revision are judged by TraceProps monitors (ReadIsSnapshot, MoreFlag, CountIsSnapshot, StreamIsSnapshot) against the history reconstructed from the engine's own post-values. The value equal to the deletion marker is a recorded known finding (D5).",
+   ref="6/C03"),
+ "C08": dict(technique="TLA+ sequential model (KBSeq.tla) model-checked by TLC (FloorMonotone, FloorAccepted); TLC-generated compaction/request sequences run on 4 engines; TLC trace validation (FloorMonotone on every logged write of the compaction record, BelowFloorRefused on every read)",
+   text="All sequences of compaction requests (zero, current, current-1/-2, oldest, above current) interleaved with writes in the bounded model are checked by TLC; generated sequences are executed on the real backend on every engine and every range/stream read at every revision is issued: reads below the reconstructed floor must be refused and the floor record must never go down.",
+   ref="6/C08"),
+ "C12": dict(technique="TLC: client-visible outcomes of KubeBrain.tla identical under both engine parameters; TLC-generated histories run on memkv/Badger/TiKV-mock/metrics wrapper; transcripts compared by TLC trace validation (TraceAgree.tla)",
+   text="The same TLC-generated sequential histories (writes with correct/stale/zero/future expectations on existing, missing, deleted and compacted keys, reads, compactions, a prefix watch) are executed on all four engine configurations; a TLA+ trace specification requires every engine to produce the same normalised transcript (successes, failures, returned values, revisions, range results, watch events), line by line.",
+   ref="6/C12"),
+ "C13": dict(technique="TLA+ transcription of border adjustment and per-partition workers (Scanner.tla) model-checked for all placements of <=2 borders; generated border sets injected into GetPartitions of real engines; TLC trace validation of list/count/streamed results",
+   text="TLC checks partition independence of the transcribed scanner for every placement of one or two borders on stored or well-formed internal keys at every revision. On the real code the engine's partition answer is replaced by seed-generated border sets (1-3 borders, on index records, inside a key's versions, unsorted); unlimited List, Count, whole-range streams and the concatenation of streams over the advertised partitions are judged against the reconstructed history (every key exactly once, batch revision = read revision, one terminator).",
+   ref="6/C13"),
+})
 NA = {
  "C19": "data-race freedom is a property of memory accesses under the Go memory model; a TLA+ specification has no notion of an unsynchronised access and trace validation cannot observe one (see DESIGN.md section 6, C19)",
 }
